@@ -49,6 +49,7 @@ Module P1.
     - apply good_set_h. assumption.
     - apply good_settle. apply good_fire. assumption.
     - apply good_settle. apply good_fire. assumption.
+    - apply good_fire. assumption.
   Qed.
 
   Theorem exec_is_run : forall cap sc,
@@ -106,6 +107,7 @@ Module P2.
     - apply good_set_h. assumption.
     - apply good_settle. apply good_fire. assumption.
     - apply good_settle. apply good_fire. assumption.
+    - apply good_fire. assumption.
   Qed.
 
   Theorem exec_is_run : forall sc,
